@@ -1,1 +1,457 @@
-From GV_h265 Require Import Model.
+(* rtph265: what the decoder does with the packets of one encoder batch, from ANY decoder state
+   (shared by C03 and C07), and the round trip from a clean state (C03). *)
+From GVL Require Import NList Wire Chunks Rtp.
+From GVG Require Import Consts.
+From GV_h265 Require Import Model ProofsEnc ProofsDec.
+From Coq Require Import ZifyBool ZifyNat ZifyN.
+Open Scope N_scope.
+
+(* ---------- valid access units ---------- *)
+(* the 2-byte NAL header: bytes, type not one of the RTP packet types 48 (AP), 49 (FU), 50 (PACI) *)
+Definition nalu_hdr_ok (b0 b1 : N) : bool :=
+  let typ := N.land (N.shiftr b0 1) 63 in
+  (b0 <? 256) && (b1 <? 256) && negb (typ =? t_ap) && negb (typ =? t_fu) && negb (typ =? t_paci).
+
+(* no 00 00 01 inside (guaranteed by emulation prevention in real NAL units): the decoder would split
+   a reassembled NALU there *)
+Definition valid_nalu (n : bytes) : Prop :=
+  match n with b0 :: b1 :: _ => nalu_hdr_ok b0 b1 = true | _ => False end /\ find_sc n = None.
+
+Definition valid_frame (au : list bytes) : Prop :=
+  au <> [] /\ nlen au <= maxn /\ sum_len au <= cap /\ Forall valid_nalu au.
+
+Definition clean (d : dstate) : Prop :=
+  dfrags d = [] /\ dfsize d = 0 /\ dfb d = [] /\ dfblen d = 0 /\ dfbsize d = 0.
+
+(* the decoder never looks at the timestamp *)
+Definition set_ts (ts : N) (ps : list packet) : list packet :=
+  map (fun p => mkPkt (pseq p) ts (pmarker p) (ppayload p)) ps.
+Lemma dec_run_set_ts ts ps : forall d, dec_run d (set_ts ts ps) = dec_run d ps.
+Proof.
+  induction ps as [|p t IH]; intros d; [reflexivity|]. cbn [set_ts map dec_run].
+  change (dec d (mkPkt (pseq p) ts (pmarker p) (ppayload p))) with (dec d p).
+  destruct (dec d p) as [d' r]. unfold set_ts in IH. now rewrite IH.
+Qed.
+
+(* ---------- bit-level facts, by enumeration of the header bytes ---------- *)
+Definition below (n : nat) : list N := map N.of_nat (seq 0 n).
+Lemma forall_below (P : N -> bool) n : forallb P (below n) = true -> forall b, b < N.of_nat n -> P b = true.
+Proof.
+  intros H b Hb. rewrite forallb_forall in H. apply H. unfold below. apply in_map_iff.
+  exists (N.to_nat b). split; [lia|]. apply in_seq. lia.
+Qed.
+
+Definition fu_chk1 (b0 : N) (s e : bool) : bool :=
+  let h2 := fu_hdr2 s e b0 in
+  (N.shiftr h2 7 =? (if s then 1 else 0)) && (N.land (N.shiftr h2 6) 1 =? (if e then 1 else 0)) &&
+  (N.land h2 63 =? N.land (N.shiftr b0 1) 63).
+Definition fu_chk (b0 : N) : bool :=
+  (N.land (N.shiftr (fu_hdr0 b0) 1) 63 =? t_fu) &&
+  fu_chk1 b0 true true && fu_chk1 b0 true false && fu_chk1 b0 false true && fu_chk1 b0 false false.
+Lemma fu_chk_all : forall b0, b0 < 256 -> fu_chk b0 = true.
+Proof. apply (forall_below fu_chk 256). vm_compute. reflexivity. Qed.
+
+Lemma fu_bits b0 s e : b0 < 256 ->
+  N.land (N.shiftr (fu_hdr0 b0) 1) 63 = t_fu /\
+  N.shiftr (fu_hdr2 s e b0) 7 = (if s then 1 else 0) /\
+  N.land (N.shiftr (fu_hdr2 s e b0) 6) 1 = (if e then 1 else 0) /\
+  N.land (fu_hdr2 s e b0) 63 = N.land (N.shiftr b0 1) 63.
+Proof.
+  intros Hb. pose proof (fu_chk_all b0 Hb) as H. unfold fu_chk in H.
+  repeat (apply andb_prop in H; destruct H as [H ?]).
+  apply N.eqb_eq in H. split; [assumption|].
+  assert (G : fu_chk1 b0 s e = true) by (destruct s, e; assumption).
+  unfold fu_chk1 in G. repeat (apply andb_prop in G; destruct G as [G ?]).
+  repeat split; apply N.eqb_eq; assumption.
+Qed.
+
+(* the 2-byte NAL header rebuilt by the decoder from the FU header is the original one *)
+Definition head_of (b0 b1 : N) : N :=
+  N.lor (N.lor (N.shiftl (N.land (fu_hdr0 b0) 129) 8) (N.shiftl (N.land (N.shiftr b0 1) 63) 9)) b1.
+Definition head_chk (b0 : N) : bool :=
+  forallb (fun b1 => (N.land (N.shiftr (head_of b0 b1) 8) 255 =? b0) && (N.land (head_of b0 b1) 255 =? b1)) (below 256).
+Lemma head_chk_all : forall b0, b0 < 256 -> head_chk b0 = true.
+Proof. apply (forall_below head_chk 256). vm_compute. reflexivity. Qed.
+Lemma head_bits b0 b1 : b0 < 256 -> b1 < 256 ->
+  N.land (N.shiftr (head_of b0 b1) 8) 255 = b0 /\ N.land (head_of b0 b1) 255 = b1.
+Proof.
+  intros H0 H1. pose proof (head_chk_all b0 H0) as H. unfold head_chk in H.
+  pose proof (forall_below _ 256 H b1 H1) as G. cbn beta in G. apply andb_prop in G.
+  destruct G as [G1 G2]. split; apply N.eqb_eq; assumption.
+Qed.
+
+(* the AP header byte carries type 48 whatever the layer id *)
+Definition ap_chk (lid : N) : bool := N.land (N.shiftr (N.lor 96 (N.land lid 32)) 1) 63 =? t_ap.
+Lemma ap_chk_all : forall lid, lid < 256 -> ap_chk lid = true.
+Proof. apply (forall_below ap_chk 256). vm_compute. reflexivity. Qed.
+
+Lemma ap_ids_le l : forall lid0 tid0 lid tid, ap_ids l lid0 tid0 = Some (lid, tid) -> lid <= lid0.
+Proof.
+  induction l as [|n t IH]; intros lid0 tid0 lid tid H; cbn [ap_ids] in H.
+  - injection H as <- _. lia.
+  - destruct n as [|b0 [|b1 r]]; try discriminate. apply IH in H.
+    destruct (N.ltb_spec (N.lor (N.shiftl (N.land b0 1) 5) (N.land (N.shiftr b1 3) 31)) lid0); lia.
+Qed.
+
+(* ---------- state algebra ---------- *)
+Definition clear_frags (d : dstate) (nx : N) : dstate := set_frags d [] 0 nx.
+
+(* the part of Decode after decodeNALUs *)
+Definition post (x : dstate * nres) (mk : bool) : dstate * dres (list bytes) :=
+  match x with
+  | (d1, NPanic) => (d1, DPanic)
+  | (d1, NErr) => (d1, DErr)
+  | (d1, NMore) => (d1, DMore)
+  | (d1, NOk nalus) =>
+      let l := nlen nalus in
+      if maxn <? dfblen d1 + l then (reset_fb d1, DErr) else
+      let add := sum_len nalus in
+      if cap <? dfbsize d1 + add then (reset_fb d1, DErr) else
+      let d2 := set_fb d1 (dfb d1 ++ nalus) (dfblen d1 + l) (dfbsize d1 + add) in
+      if negb mk then (d2, DMore) else (reset_fb d2, DFrame (dfb d2))
+  end.
+Lemma dec_post d p : dec d p = post (decode_nalus d p) (pmarker p).
+Proof. reflexivity. Qed.
+
+Lemma split_nalus_single n : n <> [] -> find_sc n = None -> split_nalus n = Some [n].
+Proof.
+  intros Hne Hf. unfold split_nalus. destruct n as [|x t]; [contradiction|].
+  cbn [split_aux]. rewrite Hf. reflexivity.
+Qed.
+
+Lemma valid_nalu_len n : valid_nalu n -> 2 <= nlen n.
+Proof. intros [H _]. destruct n as [|b0 [|b1 r]]; try contradiction. cbn [nlen]. lia. Qed.
+Lemma valid_nalu_ne n : valid_nalu n -> n <> [].
+Proof. intros H. apply valid_nalu_len in H. destruct n; [cbn [nlen] in H; lia|discriminate]. Qed.
+
+(* ---------- a single NAL unit packet ---------- *)
+Lemma decode_single d s t m n : valid_nalu n ->
+  decode_nalus d (mkPkt s t m n) = (clear_frags d (dnext d), NOk [n]).
+Proof.
+  intros Hv. pose proof Hv as [Hh _]. unfold decode_nalus. cbn [ppayload].
+  destruct n as [|b0 [|b1 pl2]]; try contradiction.
+  unfold nalu_hdr_ok in Hh. repeat (apply andb_prop in Hh; destruct Hh as [Hh ?]).
+  repeat match goal with H : negb _ = true |- _ => apply negb_true_iff in H end.
+  repeat match goal with H : (_ =? _) = false |- _ => rewrite H end.
+  reflexivity.
+Qed.
+
+(* ---------- an aggregation packet ---------- *)
+Lemma size_field len : len < 65536 -> (len / 256) mod 256 * 256 + len mod 256 = len.
+Proof.
+  intros H. rewrite (N.mod_small (len / 256)).
+  - rewrite N.mul_comm. symmetry. apply N.div_mod. lia.
+  - apply N.div_lt_upper_bound; lia.
+Qed.
+
+Lemma ap_walk_ok : forall batch fuel acc, batch <> [] ->
+  Forall (fun n => 0 < nlen n /\ nlen n < 65536) batch ->
+  nlen (ap_body batch) <= nlen fuel ->
+  ap_walk fuel (ap_body batch) acc = POk (acc ++ batch).
+Proof.
+  induction batch as [|n t IH]; intros fuel acc Hne Hall Hf; [contradiction|].
+  inversion Hall as [|? ? [Hn0 Hn1] Ht]; subst.
+  destruct fuel as [|f fuel]; [cbn [ap_body nlen] in Hf; lia|].
+  cbn [ap_body ap_walk]. rewrite size_field by assumption.
+  destruct (N.eqb_spec (nlen n) 0); [lia|]. cbn [orb].
+  destruct (N.ltb_spec (nlen (n ++ ap_body t)) (nlen n)); [rewrite nlen_app in *; lia|].
+  rewrite ntake_app_exact, ndrop_app_exact.
+  destruct t as [|n2 t2]; [reflexivity|].
+  remember (ap_body (n2 :: t2)) as body eqn:Eb. destruct body as [|y r]; [discriminate|].
+  rewrite IH; [now rewrite <- app_assoc|discriminate|assumption|].
+  change (ap_body (n :: n2 :: t2)) with ((nlen n / 256) mod 256 :: nlen n mod 256 :: n ++ ap_body (n2 :: t2)) in Hf.
+  rewrite <- Eb in Hf. cbn [nlen] in Hf. rewrite nlen_app in Hf. cbn [nlen] in *. lia.
+Qed.
+
+Lemma decode_ap d s t m batch pl : ap batch = Some pl -> batch <> [] ->
+  Forall (fun n => 0 < nlen n /\ nlen n < 65536) batch ->
+  decode_nalus d (mkPkt s t m pl) = (clear_frags d (dnext d), NOk batch).
+Proof.
+  intros Hap Hne Hall. unfold ap in Hap. destruct (ap_ids batch 255 255) as [[lid tid]|] eqn:Eids; [|discriminate].
+  pose proof (ap_ids_le _ _ _ _ _ Eids) as Hle.
+  pose proof (ap_chk_all lid ltac:(lia)) as Hc. unfold ap_chk in Hc.
+  remember (N.lor 96 (N.land lid 32)) as h0 eqn:Eh0.
+  injection Hap as <-. unfold decode_nalus. cbn [ppayload]. rewrite Hc.
+  rewrite ap_walk_ok; [|assumption|assumption|lia]. reflexivity.
+Qed.
+
+(* ---------- FU packets ---------- *)
+(* continuation fragments, from a state that already holds the beginning *)
+Lemma fu_rest b0 b1 m : b0 < 256 -> forall cs d s, cs <> [] ->
+  0 < dfsize d -> dnext d = s -> s < 65536 -> dfsize d + sum_len cs <= cap ->
+  dec_run d (number s (fu_protos b0 b1 m false cs)) =
+    let d1 := set_frags d (dfrags d ++ cs) (dfsize d + sum_len cs) (seq_add s (nlen cs)) in
+    let '(d2, r) := post (finish_frags d1) m in
+    (d2, repeat DMore (length cs - 1) ++ [r]).
+Proof.
+  intros Hb. induction cs as [|c t IH]; intros d s Hne H0 Hnx Hs Hcap; [contradiction|].
+  cbn [fu_protos number dec_run pseq pmarker ppayload sum_len] in *.
+  rewrite dec_post. cbn [pmarker]. unfold decode_nalus at 1. cbn [ppayload pseq].
+  destruct (fu_bits b0 false (match t with [] => true | _ :: _ => false end) Hb) as (F1 & F2 & F3 & _).
+  rewrite F1. change (t_fu =? t_ap) with false. rewrite N.eqb_refl, F2. change (0 =? 1) with false. cbn iota.
+  destruct (N.eqb_spec (dfsize d) 0); [lia|]. rewrite Hnx, N.eqb_refl. cbn [negb].
+  destruct (N.ltb_spec cap (dfsize d + nlen c)); [lia|]. rewrite F3.
+  destruct t as [|c2 t2].
+  - cbn [negb andb N.eqb]. cbn [sum_len nlen length Nat.sub repeat app].
+    replace (dfsize d + (nlen c + 0)) with (dfsize d + nlen c) by lia.
+    change (seq_add s (N.succ 0)) with (seq_next s).
+    destruct (post _ m) as [d2 r]. reflexivity.
+  - change (0 =? 1) with false. cbn [negb andb post].
+    set (d1 := set_frags d (dfrags d ++ [c]) (dfsize d + nlen c) (seq_next s)).
+    specialize (IH d1 (seq_next s)). rewrite IH; clear IH.
+    + unfold d1, set_frags. cbn [dfrags dfsize dnext dfb dfblen dfbsize]. rewrite <- app_assoc. cbn [app].
+      replace (dfsize d + nlen c + sum_len (c2 :: t2)) with (dfsize d + (nlen c + sum_len (c2 :: t2))) by lia.
+      replace (seq_add (seq_next s) (nlen (c2 :: t2))) with (seq_add s (nlen (c :: c2 :: t2)))
+        by (rewrite seq_add_next; f_equal; cbn [nlen]; lia).
+      cbn zeta. destruct (post _ m) as [d2 r]. cbn [length Nat.sub]. rewrite Nat.sub_0_r. reflexivity.
+    + discriminate.
+    + unfold d1, set_frags; cbn [dfsize]. lia.
+    + reflexivity.
+    + apply seq_next_lt.
+    + unfold d1, set_frags; cbn [dfsize]. cbn [sum_len] in Hcap. cbn [sum_len]. clear -Hcap. lia.
+Qed.
+
+(* a whole fragmented NALU, from any state *)
+Lemma fu_run b0 b1 rest m c1 c2 cs d s :
+  b0 < 256 -> b1 < 256 -> s < 65536 -> concat (c1 :: c2 :: cs) = rest -> nlen (b0 :: b1 :: rest) <= cap ->
+  dec_run d (number s (fu_protos b0 b1 m true (c1 :: c2 :: cs))) =
+    let d1 := set_frags d ([b0; b1] :: c1 :: c2 :: cs) (nlen (b0 :: b1 :: rest)) (seq_add s (nlen (c1 :: c2 :: cs))) in
+    let '(d2, r) := post (finish_frags d1) m in
+    (d2, repeat DMore (length (c1 :: c2 :: cs) - 1) ++ [r]).
+Proof.
+  intros Hb0 Hb1 Hs Hcat Hcap.
+  change (fu_protos b0 b1 m true (c1 :: c2 :: cs)) with
+    ((false && m, fu_hdr0 b0 :: b1 :: fu_hdr2 true false b0 :: c1) :: fu_protos b0 b1 m false (c2 :: cs)).
+  cbn [number dec_run pseq pmarker ppayload].
+  rewrite dec_post. cbn [pmarker]. unfold decode_nalus at 1. cbn [ppayload pseq].
+  destruct (fu_bits b0 true false Hb0) as (F1 & F2 & F3 & F4).
+  rewrite F1. change (t_fu =? t_ap) with false. rewrite N.eqb_refl, F2, N.eqb_refl, F3, F4.
+  change (negb (0 =? 0)) with false. cbn iota. cbn [andb post].
+  fold (head_of b0 b1). destruct (head_bits b0 b1 Hb0 Hb1) as [G1 G2]. rewrite G1, G2.
+  set (d1 := set_frags d [[b0; b1]; c1] (N.succ (N.succ (nlen c1))) (seq_next s)).
+  pose proof (fu_rest b0 b1 m Hb0 (c2 :: cs) d1 (seq_next s)) as H.
+  assert (Hsum : sum_len (c1 :: c2 :: cs) = nlen rest) by (rewrite sum_len_concat; now f_equal).
+  cbn [sum_len nlen] in Hsum, Hcap.
+  rewrite H; clear H.
+  - unfold d1, set_frags. cbn [dfrags dfsize dnext dfb dfblen dfbsize]. cbn [app nlen].
+    replace (N.succ (N.succ (nlen c1)) + sum_len (c2 :: cs)) with (N.succ (N.succ (nlen rest))) by (cbn [sum_len]; lia).
+    replace (seq_add (seq_next s) (N.succ (nlen cs))) with (seq_add s (N.succ (N.succ (nlen cs))))
+      by (rewrite seq_add_next; f_equal; lia).
+    cbn zeta. destruct (post _ m) as [d2 r]. cbn [length Nat.sub]. rewrite Nat.sub_0_r. reflexivity.
+  - discriminate.
+  - unfold d1, set_frags; cbn [dfsize nlen]. lia.
+  - reflexivity.
+  - apply seq_next_lt.
+  - unfold d1, set_frags; cbn [dfsize nlen sum_len]. clear -Hsum Hcap. lia.
+Qed.
+
+Lemma finish_frags_valid d b0 b1 rest cs nx :
+  valid_nalu (b0 :: b1 :: rest) -> concat cs = rest ->
+  finish_frags (set_frags d ([b0; b1] :: cs) (nlen (b0 :: b1 :: rest)) nx) = (clear_frags d nx, NOk [b0 :: b1 :: rest]).
+Proof.
+  intros Hv Hcat. unfold finish_frags.
+  change (dfrags (set_frags d ([b0; b1] :: cs) (nlen (b0 :: b1 :: rest)) nx)) with ([b0; b1] :: cs).
+  change (dfsize (set_frags d ([b0; b1] :: cs) (nlen (b0 :: b1 :: rest)) nx)) with (nlen (b0 :: b1 :: rest)).
+  replace (nlen (b0 :: b1 :: rest)) with (sum_len ([b0; b1] :: cs)) at 1.
+  2:{ rewrite sum_len_concat. cbn [concat app]. now rewrite Hcat. }
+  rewrite join_exact. cbn [concat app]. rewrite Hcat.
+  rewrite split_nalus_single; [|discriminate|apply Hv]. reflexivity.
+Qed.
+
+(* ---------- one encoder batch, from ANY decoder state ---------- *)
+Definition batch_ok (max : N) (b : list bytes) : Prop :=
+  b <> [] /\ Forall valid_nalu b /\ ok_batch max b /\ sum_len b <= cap /\ nlen b <= maxn.
+
+Lemma in_sum_len n (b : list bytes) : In n b -> nlen n <= sum_len b.
+Proof.
+  induction b as [|x t IH]; intros H; [contradiction|]. cbn [sum_len]. destruct H as [->|H]; [lia|].
+  specialize (IH H). lia.
+Qed.
+
+Lemma batch_run max m b d s : 4 <= max -> max <= 65538 -> batch_ok max b -> s < 65536 ->
+  exists protos nx, write_batch max m b = WOk protos /\ protos <> [] /\
+    dec_run d (number s protos) =
+      let '(d2, r) := post (clear_frags d nx, NOk b) m in
+      (d2, repeat DMore (length protos - 1) ++ [r]).
+Proof.
+  intros Hm HM (Hne & Hv & Hok & Hsz & Hbn) Hs. unfold write_batch.
+  destruct b as [|n [|n2 r]]; [contradiction| |].
+  - (* one NALU *)
+    inversion Hv as [|? ? Hvn _]; subst. cbn [sum_len] in Hsz.
+    destruct (N.ltb_spec (nlen n) max) as [Hlt|Hge].
+    + exists [(m, n)], (dnext d). split; [reflexivity|]. split; [discriminate|].
+      cbn [number dec_run pseq pmarker ppayload]. rewrite dec_post. cbn [pmarker].
+      rewrite decode_single by assumption.
+      destruct (post _ m) as [d2 r']. reflexivity.
+    + destruct n as [|b0 [|b1 rest]]; [destruct Hvn as [[] _]|destruct Hvn as [[] _]|].
+      pose proof Hvn as [Hh _]. unfold nalu_hdr_ok in Hh.
+      repeat (apply andb_prop in Hh; destruct Hh as [Hh ?]). apply N.ltb_lt in Hh.
+      match goal with H : (b1 <? 256) = true |- _ => apply N.ltb_lt in H; rename H into Hb1 end.
+      assert (Hrest : rest <> []) by (destruct rest; [cbn [nlen] in Hge; lia|discriminate]).
+      assert (Hav : 0 < max - 3) by lia.
+      pose proof (chunks_concat (max - 3) rest Hav) as Hcat.
+      pose proof (chunks_count (max - 3) rest Hav) as Hcnt.
+      remember (chunks (max - 3) rest) as cs eqn:Ecs.
+      destruct cs as [|c1 [|c2 cs]].
+      * cbn in Hcat. subst rest. contradiction.
+      * exfalso. cbn [nlen] in Hcnt, Hge.
+        assert (Hq : 2 <= (nlen rest + (max - 3) - 1) / (max - 3)).
+        { apply N.div_le_lower_bound; lia. }
+        lia.
+      * eexists. exists (seq_add s (nlen (c1 :: c2 :: cs))). split; [reflexivity|]. split; [discriminate|].
+        rewrite (fu_run b0 b1 rest m c1 c2 cs d s) by (assumption || lia).
+        cbn zeta. rewrite finish_frags_valid by assumption.
+        destruct (post _ m) as [d2 r']. rewrite fu_protos_length. reflexivity.
+  - (* aggregation *)
+    assert (Hlong : long_nalus (n :: n2 :: r)).
+    { eapply Forall_impl; [|exact Hv]. intros x Hx. now apply valid_nalu_len. }
+    destruct (ap_some _ Hlong) as (pl & Hap & _). rewrite Hap.
+    exists [(m, pl)], (dnext d). split; [reflexivity|]. split; [discriminate|].
+    cbn [number dec_run pseq pmarker ppayload]. rewrite dec_post. cbn [pmarker].
+    rewrite (decode_ap d s 0 m (n :: n2 :: r) pl Hap); [|discriminate|].
+    + destruct (post _ m) as [d2 r']. reflexivity.
+    + rewrite Forall_forall. intros x Hx. rewrite Forall_forall in Hv.
+      pose proof (valid_nalu_len x (Hv x Hx)) as Hxl. split; [lia|].
+      cbn [ok_batch] in Hok. unfold len_agg in Hok. rewrite len_agg_body_sum in Hok.
+      pose proof (in_sum_len x _ Hx) as Hle. cbn [nlen] in Hok. lia.
+Qed.
+
+(* ---------- the frame buffer while it accumulates one access unit ---------- *)
+Definition fb_inv (d : dstate) : Prop := dfblen d = nlen (dfb d) /\ dfbsize d = sum_len (dfb d).
+
+Lemma post_accum d nx b m : fb_inv d ->
+  nlen (dfb d) + nlen b <= maxn -> sum_len (dfb d) + sum_len b <= cap ->
+  post (clear_frags d nx, NOk b) m =
+    let d2 := set_fb (clear_frags d nx) (dfb d ++ b) (dfblen d + nlen b) (dfbsize d + sum_len b) in
+    if m then (reset_fb d2, DFrame (dfb d ++ b)) else (d2, DMore).
+Proof.
+  intros [H1 H2] Hn Hc. unfold post.
+  change (dfb (clear_frags d nx)) with (dfb d). change (dfblen (clear_frags d nx)) with (dfblen d).
+  change (dfbsize (clear_frags d nx)) with (dfbsize d).
+  destruct (N.ltb_spec maxn (dfblen d + nlen b)); [lia|].
+  destruct (N.ltb_spec cap (dfbsize d + sum_len b)); [lia|].
+  destruct m; reflexivity.
+Qed.
+
+Lemma repeat_more_app {A} (x : A) a b (y : A) : (1 <= a)%nat -> (1 <= b)%nat ->
+  (repeat x (a - 1) ++ [x]) ++ repeat x (b - 1) ++ [y] = repeat x (a + b - 1) ++ [y].
+Proof.
+  intros Ha Hb. replace (a + b - 1)%nat with ((a - 1) + 1 + (b - 1))%nat by lia.
+  rewrite !repeat_app. cbn [repeat]. now rewrite <- !app_assoc.
+Qed.
+
+Lemma dec_run_app ps1 ps2 d :
+  dec_run d (ps1 ++ ps2) =
+  let '(d1, r1) := dec_run d ps1 in let '(d2, r2) := dec_run d1 ps2 in (d2, r1 ++ r2).
+Proof.
+  revert d; induction ps1 as [|p t IH]; intros d; cbn [app dec_run].
+  - destruct (dec_run d ps2); reflexivity.
+  - destruct (dec d p) as [d' r]. rewrite IH. destruct (dec_run d' t) as [d1 r1].
+    destruct (dec_run d1 ps2) as [d2 r2]. reflexivity.
+Qed.
+
+(* all batches of one access unit, into a frame buffer that has room *)
+Lemma batches_run max : 4 <= max -> max <= 65538 -> forall bs d s, bs <> [] ->
+  Forall (batch_ok max) bs -> s < 65536 -> fb_inv d ->
+  nlen (dfb d) + nlen (concat bs) <= maxn -> sum_len (dfb d) + sum_len (concat bs) <= cap ->
+  exists protos d', write_batches max bs = (protos, SOk) /\ protos <> [] /\
+    dec_run d (number s protos) =
+      (d', repeat DMore (length protos - 1) ++ [DFrame (dfb d ++ concat bs)]) /\ clean d'.
+Proof.
+  intros Hm HM. induction bs as [|b t IH]; intros d s Hne Hall Hs Hfb Hn Hc; [contradiction|].
+  inversion Hall as [|? ? Hb Ht]; subst. cbn [write_batches concat] in *.
+  rewrite nlen_app in Hn. rewrite sum_len_app in Hc.
+  destruct t as [|b2 t2].
+  - destruct (batch_run max true b d s Hm HM Hb Hs) as (protos & nx & -> & Hpne & Hrun).
+    exists protos. eexists. split; [reflexivity|]. split; [assumption|].
+    rewrite Hrun, post_accum by (assumption || (cbn [concat nlen sum_len] in *; lia)).
+    cbn zeta iota. rewrite app_nil_r. split; [reflexivity|].
+    unfold clean, reset_fb, set_fb, clear_frags, set_frags; cbn. repeat split; reflexivity.
+  - destruct (batch_run max false b d s Hm HM Hb Hs) as (x & nx & -> & Hxne & Hrun).
+    rewrite post_accum in Hrun by (assumption || lia). cbn zeta iota in Hrun.
+    set (d1 := set_fb (clear_frags d nx) (dfb d ++ b) (dfblen d + nlen b) (dfbsize d + sum_len b)) in *.
+    destruct (IH d1 (seq_add s (nlen x))) as (y & d' & Hw & Hyne & Hrun2 & Hcl).
+    + discriminate.
+    + assumption.
+    + apply seq_add_lt.
+    + destruct Hfb as [F1 F2]. unfold fb_inv, d1, set_fb; cbn [dfb dfblen dfbsize].
+      rewrite nlen_app, sum_len_app. split; lia.
+    + unfold d1, set_fb; cbn [dfb]. rewrite nlen_app. lia.
+    + unfold d1, set_fb; cbn [dfb]. rewrite sum_len_app. lia.
+    + rewrite Hw. exists (x ++ y), d'. split; [reflexivity|]. split; [destruct x; [contradiction|discriminate]|].
+      split; [|assumption].
+      rewrite number_app by assumption. rewrite dec_run_app, Hrun, Hrun2.
+      unfold d1, set_fb at 1; cbn [dfb]. rewrite app_length.
+      rewrite <- (app_assoc (dfb d) b (concat (b2 :: t2))). f_equal.
+      apply repeat_more_app; [destruct x; [contradiction|cbn; lia]|destruct y; [contradiction|cbn; lia]].
+Qed.
+
+Lemma sum_len_concat_in (ls : list (list bytes)) b : In b ls -> sum_len b <= sum_len (concat ls).
+Proof.
+  induction ls as [|l t IH]; intros H; [contradiction|]. cbn [concat]. rewrite sum_len_app.
+  destruct H as [->|H]; [lia|]. specialize (IH H). lia.
+Qed.
+
+Lemma nlen_concat_in {A} (ls : list (list A)) b : In b ls -> nlen b <= nlen (concat ls).
+Proof.
+  induction ls as [|l t IH]; intros H; [contradiction|]. cbn [concat]. rewrite nlen_app.
+  destruct H as [->|H]; [lia|]. specialize (IH H). lia.
+Qed.
+
+Lemma batches_valid max au : 4 <= max -> valid_frame au -> Forall (batch_ok max) (batches max [] au).
+Proof.
+  intros Hm (Hne & Hn & Hc & Hv).
+  pose proof (batches_concat max au []) as Hcat. cbn [app] in Hcat.
+  pose proof (batches_nonempty max au [] (or_intror Hne)) as H1.
+  assert (H2 : Forall (ok_batch max) (batches max [] au)).
+  { apply batches_ok. cbn. unfold len_agg. cbn. lia. }
+  assert (H3 : Forall (Forall valid_nalu) (batches max [] au)).
+  { apply Forall_concat. now rewrite Hcat. }
+  rewrite Forall_forall in *. intros b Hb. unfold batch_ok.
+  repeat split; [now apply H1|now apply H3|now apply H2| |].
+  - pose proof (sum_len_concat_in _ b Hb) as Hle. rewrite Hcat in Hle. lia.
+  - pose proof (nlen_concat_in _ b Hb) as Hle. rewrite Hcat in Hle. lia.
+Qed.
+
+(* ---------- C03 ---------- *)
+Theorem roundtrip max seq au d : 4 <= max -> max <= 65538 -> seq < 65536 ->
+  valid_frame au -> clean d ->
+  exists ps d', enc max seq au = (Some ps, SOk, seq_add seq (nlen ps)) /\
+    dec_run d ps = (d', repeat DMore (length ps - 1) ++ [DFrame au]) /\ clean d'.
+Proof.
+  intros Hm HM Hs Hv (Hc1 & Hc2 & Hc3 & Hc4 & Hc5).
+  pose proof (batches_valid max au Hm Hv) as Hb.
+  pose proof (batches_concat max au []) as Hcat. cbn [app] in Hcat.
+  destruct Hv as (Hne & Hn & Hc & Hvn).
+  destruct (batches_run max Hm HM (batches max [] au) d seq) as (protos & d' & Hw & Hpne & Hrun & Hcl).
+  - apply batches_ne.
+  - assumption.
+  - assumption.
+  - unfold fb_inv. rewrite Hc3, Hc4, Hc5. split; reflexivity.
+  - rewrite Hc3, Hcat. cbn [nlen]. lia.
+  - rewrite Hc3, Hcat. cbn [sum_len]. lia.
+  - unfold enc, enc_protos. rewrite Hw. exists (number seq protos), d'. rewrite number_len. split; [reflexivity|].
+    rewrite Hrun, Hc3, Hcat, number_length. cbn [app]. split; [reflexivity|assumption].
+Qed.
+
+(* consecutive access units through the same encoder/decoder pair *)
+Fixpoint expect (pss : list (list packet)) (frames : list (list bytes)) : list (dres (list bytes)) :=
+  match pss, frames with
+  | ps :: pt, f :: ft => repeat DMore (length ps - 1) ++ [DFrame f] ++ expect pt ft
+  | _, _ => []
+  end.
+
+Theorem roundtrip_seq max : 4 <= max -> max <= 65538 -> forall frames seq d,
+  seq < 65536 -> Forall valid_frame frames -> clean d ->
+  exists pss d', enc_many max seq frames = Some pss /\
+    dec_run d (concat pss) = (d', expect pss frames) /\ clean d'.
+Proof.
+  intros Hm HM. induction frames as [|f t IH]; intros seq d Hs Hv Hcl.
+  - exists [], d. cbn. repeat split; try reflexivity; apply Hcl.
+  - inversion Hv as [|? ? Hf Ht]; subst. cbn [enc_many].
+    destruct (roundtrip max seq f d Hm HM Hs Hf Hcl) as (ps & d1 & He & Hr1 & Hc1).
+    rewrite He.
+    destruct (IH (seq_add seq (nlen ps)) d1 (seq_add_lt _ _) Ht Hc1) as (pss & d2 & -> & Hr2 & Hc2).
+    exists (ps :: pss), d2. split; [reflexivity|]. split; [|assumption].
+    cbn [concat expect]. rewrite dec_run_app, Hr1, Hr2. now rewrite <- app_assoc.
+Qed.
